@@ -1,64 +1,61 @@
 // C12 kernels: etl::chrono durations with period FN/FD ("From") and TN/TD ("To"), representation REP.
-// Parameter types are exactly the Rep types of the durations under test.
+// Parameter types are exactly the Rep types of the durations under test. No logic here.
 #include "vf.h"
 #include <etl/chrono.hpp>
 #include <etl/type_traits.hpp>
-#ifndef REPW
-#define REPW 32
-#endif
-#if REPW == 32
-typedef int REP;
-#else
-typedef long long REP;
-#endif
+#include "reps.h"
 using From = etl::chrono::duration<REP, etl::ratio<FN, FD>>;
 using To   = etl::chrono::duration<REP, etl::ratio<TN, TD>>;
 using CT   = etl::common_type_t<From, To>;
 using CR   = CT::rep;
 static_assert(etl::is_same_v<From::rep, REP> && etl::is_same_v<To::rep, REP>);
 static_assert(etl::is_same_v<CR, REP>);
+// second representation (mixed-Rep common types): To2 has the period of To and representation REP2
+using To2 = etl::chrono::duration<REP2, etl::ratio<TN, TD>>;
+using CT2 = etl::common_type_t<From, To2>;
+using CR2 = CT2::rep;
+static_assert(etl::is_same_v<CR2, MREP>, "common Rep of the mixed pair is the one the driver expects");
+
 K REP k_cast(REP c) { return etl::chrono::duration_cast<To>(From{c}).count(); }
 K REP k_floor(REP c) { return etl::chrono::floor<To>(From{c}).count(); }
 K REP k_ceil(REP c) { return etl::chrono::ceil<To>(From{c}).count(); }
-K REP k_round(REP c) { return etl::chrono::round<To>(From{c}).count(); }
 K REP k_abs(REP c) { return etl::chrono::abs(From{c}).count(); }
 K void k_ct_period(long long* n, long long* d) { *n = CT::period::num; *d = CT::period::den; }
 K CR k_add(REP a, REP b) { return (From{a} + To{b}).count(); }
 K CR k_sub(REP a, REP b) { return (From{a} - To{b}).count(); }
-K CR k_mod(REP a, REP b) { return (From{a} % To{b}).count(); }
 K CR k_ddiv(REP a, REP b) { return From{a} / To{b}; }
 K CR k_to_common(REP a) { return CT{From{a}}.count(); }
+K CR k_to_common_b(REP b) { return CT{To{b}}.count(); }
 K unsigned k_cmp(REP a, REP b)
 {
     From x{a}; To y{b};
     return unsigned(x == y) | unsigned(x != y) << 1 | unsigned(x < y) << 2 | unsigned(x <= y) << 3 | unsigned(x > y) << 4 | unsigned(x >= y) << 5;
 }
-// binary duration*scalar, scalar*duration, duration/scalar and duration%scalar are not provided by tetl; *=, /=, %= are (k_compound)
+// binary duration*scalar, scalar*duration, duration/scalar and duration%scalar are not provided by tetl; *=, /=, %= are
 K REP k_neg(REP a) { return (-From{a}).count(); }
-K REP k_incdec(REP a, unsigned op)
+K REP k_pos(REP a) { return (+From{a}).count(); }
+K REP k_incdec(REP a, unsigned op, REP* ret)  // *ret = count of the value the operator returns
 {
     From d{a};
     switch (op) {
-    case 0: ++d; break;
-    case 1: --d; break;
-    case 2: d++; break;
-    case 3: d--; break;
+    case 0: *ret = (++d).count(); break;
+    case 1: *ret = (--d).count(); break;
+    case 2: *ret = (d++).count(); break;
+    case 3: *ret = (d--).count(); break;
     }
     return d.count();
 }
-K REP k_compound(REP a, REP b, unsigned op)
-{
-    From d{a};
-    switch (op) {
-    case 0: d += From{b}; break;
-    case 1: d -= From{b}; break;
-    case 2: d *= b; break;
-    case 3: d /= b; break;
-    case 4: d %= b; break;
-    case 5: d %= From{b}; break;
-    }
-    return d.count();
-}
+K REP k_cadd(REP a, REP b) { From d{a}; d += From{b}; return d.count(); }
+K REP k_csub(REP a, REP b) { From d{a}; d -= From{b}; return d.count(); }
+K REP k_cmul(REP a, REP b) { From d{a}; d *= b; return d.count(); }
+K REP k_cdiv(REP a, REP b) { From d{a}; d /= b; return d.count(); }
+K void k_zmm(REP* z, REP* mn, REP* mx) { *z = From::zero().count(); *mn = From::min().count(); *mx = From::max().count(); }
+#if !REPF
+K REP k_round(REP c) { return etl::chrono::round<To>(From{c}).count(); }
+K CR k_mod(REP a, REP b) { return (From{a} % To{b}).count(); }
+K REP k_cmod(REP a, REP b) { From d{a}; d %= b; return d.count(); }
+K REP k_cmodd(REP a, REP b) { From d{a}; d %= From{b}; return d.count(); }
+#endif
 // time_point: arithmetic and casts are defined through the duration operations
 struct vclock { using duration = From; using rep = REP; using period = From::period; using time_point = etl::chrono::time_point<vclock, From>; };
 using TP = etl::chrono::time_point<vclock, From>;
@@ -67,23 +64,37 @@ using TP = etl::chrono::time_point<vclock, From>;
 using TP2 = etl::chrono::time_point<vclock, To>;
 K REP k_tp_add(REP t, REP d) { TP x{From{t}}; x += From{d}; return x.time_since_epoch().count(); }
 K REP k_tp_sub(REP t, REP d) { TP x{From{t}}; x -= From{d}; return x.time_since_epoch().count(); }
-K REP k_tp_incdec(REP t, unsigned op)
+K REP k_tp_incdec(REP t, unsigned op, REP* ret)
 {
     TP x{From{t}};
     switch (op) {
-    case 0: ++x; break;
-    case 1: --x; break;
-    case 2: x++; break;
-    case 3: x--; break;
+    case 0: *ret = (++x).time_since_epoch().count(); break;
+    case 1: *ret = (--x).time_since_epoch().count(); break;
+    case 2: *ret = (x++).time_since_epoch().count(); break;
+    case 3: *ret = (x--).time_since_epoch().count(); break;
     }
     return x.time_since_epoch().count();
 }
+K void k_tp_mm(REP* mn, REP* mx) { *mn = TP::min().time_since_epoch().count(); *mx = TP::max().time_since_epoch().count(); }
 K REP k_tp_cast(REP t) { return etl::chrono::time_point_cast<To>(TP{From{t}}).time_since_epoch().count(); }
 K REP k_tp_floor(REP t) { return etl::chrono::floor<To>(TP{From{t}}).time_since_epoch().count(); }
 K REP k_tp_ceil(REP t) { return etl::chrono::ceil<To>(TP{From{t}}).time_since_epoch().count(); }
+#if !REPF
 K REP k_tp_round(REP t) { return etl::chrono::round<To>(TP{From{t}}).time_since_epoch().count(); }
+#endif
 K unsigned k_tp_cmp(REP a, REP b)
 {
     TP x{From{a}}; TP2 y{To{b}};
     return unsigned(x == y) | unsigned(x != y) << 1 | unsigned(x < y) << 2 | unsigned(x <= y) << 3 | unsigned(x > y) << 4 | unsigned(x >= y) << 5;
 }
+// mixed representations: duration<REP, From::period> op duration<REP2, To::period>
+K CR2 k_madd(REP a, REP2 b) { return (From{a} + To2{b}).count(); }
+K CR2 k_msub(REP a, REP2 b) { return (From{a} - To2{b}).count(); }
+K CR2 k_mcommon_a(REP a) { return CT2{From{a}}.count(); }
+K CR2 k_mcommon_b(REP2 b) { return CT2{To2{b}}.count(); }
+K unsigned k_mcmp(REP a, REP2 b)
+{
+    From x{a}; To2 y{b};
+    return unsigned(x == y) | unsigned(x != y) << 1 | unsigned(x < y) << 2 | unsigned(x <= y) << 3 | unsigned(x > y) << 4 | unsigned(x >= y) << 5;
+}
+K REP2 k_mcast(REP c) { return etl::chrono::duration_cast<To2>(From{c}).count(); }
